@@ -16,7 +16,7 @@ from . import algebra as A
 from . import symeval as S
 from .algebra import Undecided
 
-GRID_N = 4  # number of symbolic grid nodes of the model interpolator
+GRID_N = 2  # number of symbolic grid nodes of the model interpolator
 
 
 class Cell:
@@ -116,7 +116,7 @@ def _xgrid(ev, grid, log=True, **kw):
 
 
 def _interpolator(ev, xgrid, degree, mode_N=False, **kw):
-    basis = [S.record(f"bf{j}", poly_number=j) for j in range(len(xgrid.attrs["raw"]))]
+    basis = [S.record(f"bf{j}", poly_number=j, is_below_x=S._NativeFn(lambda x: False)) for j in range(len(xgrid.attrs["raw"]))]
     o = S.record("InterpolatorDispatcher", xgrid=xgrid, degree=degree)
     o.store["__list__"] = basis
     o.attrs["to_dict"] = S._NativeFn(lambda: {"xgrid": {"grid": list(xgrid.attrs["raw"]), "log": xgrid.attrs["log"]},
@@ -157,21 +157,60 @@ def make_nf_default(cell):
     return nf_default
 
 
+def in_rejection_guard(node):
+    """Is this comparison (part of) the test of an `if` whose body only raises?  Returns the If or None."""
+    n = node
+    p = getattr(n, "_parent", None)
+    while isinstance(p, (ast.BoolOp, ast.UnaryOp, ast.Compare)):
+        n, p = p, getattr(p, "_parent", None)
+    if isinstance(p, ast.If) and p.test is n and p.body and isinstance(p.body[-1], ast.Raise) and not p.orelse:
+        return p
+    return None
+
+
+def guard_not_triggered(node):
+    """Truth value for one symbolic comparison so that the enclosing rejection guard is not taken
+    (only for tests that are a single comparison or an `or` of comparisons)."""
+    g = in_rejection_guard(node)
+    if g is None:
+        return None
+    t = g.test
+    if t is node:
+        return False
+    if isinstance(t, ast.BoolOp) and isinstance(t.op, ast.Or) and node in t.values:
+        return False
+    return None
+
+
 def make_compare(assume_valid_kin=True):
     def on_compare(op, a, b, node):
-        """Assumptions: requested kinematics are valid (0 < x < 1, Q2 > 0, x >= grid minimum)."""
+        """The analysed path is the one on which symbolic kinematics pass the rejection guards
+        (the guards themselves are decided on concrete orderings by C16.kin)."""
         if not assume_valid_kin or node is None:
             return None
-        txt = ast.unparse(node)
-        table = {
-            "x > 1": False,
-            "x <= 0": False,
-            "kinematics['Q2'] <= 0": False,
-            "x < min(configs.interpolator.xgrid.raw)": False,
-        }
-        return table.get(txt)
+        return guard_not_triggered(node)
 
     return on_compare
+
+
+def opaque_weights(ev):
+    """Keep the electroweak weights as opaque atoms w(pid, type[, mask]) (rules that only need the
+    linear structure of the operator use this; C02/C13 fold the real expressions)."""
+
+    def get_weight(ev_, self_, pid, Q2, quark_coupling_type, cc_mask=None):
+        pid = S.num_norm(pid)
+        a = (abs(pid) if isinstance(pid, int) else pid, quark_coupling_type)
+        if cc_mask is not None:
+            a = a + (cc_mask,)
+        return A.opaque("w", a)
+
+    def get_fl11_weight(ev_, self_, pid, Q2, nf, quark_coupling_type):
+        pid = S.num_norm(pid)
+        return A.opaque("wfl11", (abs(pid) if isinstance(pid, int) else pid, S.num_norm(nf), quark_coupling_type))
+
+    cc = "yadism.coefficient_functions.coupling_constants::CouplingConstants."
+    ev.summaries[cc + "get_weight"] = get_weight
+    ev.summaries[cc + "get_fl11_weight"] = get_fl11_weight
 
 
 def fold_runner(proj, cell, n_points=1, on_call=None, assume_valid_kin=True, extra_ext=None):
@@ -325,7 +364,15 @@ def _ad_projectors_factory(ev):
     return ad_projectors
 
 
+def _convolution(ev, rsl, x, pdf_func):
+    key = rsl_key(rsl)
+    RSL_REGISTRY[key] = rsl
+    j = pdf_func.attrs.get("poly_number")
+    return (A.opaque("conv", (key, S.num_norm(x), j)), A.opaque("converr", (key, S.num_norm(x), j), positive=True))
+
+
 def install_result_summaries(ev):
+    ev.summaries["yadism.esf.conv::convolution"] = _convolution
     ev.summaries["yadism.esf.conv::convolve_vector"] = _convolve_vector
     ev.summaries["yadism.esf.conv::convolve_operator"] = _convolve_operator
     adp = _ad_projectors_factory(ev)
